@@ -207,10 +207,63 @@ def random_spec(rnd, with_marks=True, gen_expr=None):
     return spec
 
 
+def default_children(nt):
+    """The node types the documented default filling puts into an empty node of type nt:
+    depth-first over the compiled automaton's edges in order, generatable types only, first
+    path that reaches a valid end (read through the public edge()/valid_end interface; the
+    automaton itself is judged by C06)."""
+    start = nt.content_match
+    seen = [start]
+
+    def search(m, types):
+        if m.valid_end:
+            return types
+        for k in range(m.edge_count):
+            e = m.edge(k)
+            t = e.type
+            if t.is_text or t.has_required_attrs() or any(e.next is x for x in seen):
+                continue
+            seen.append(e.next)
+            r = search(e.next, types + [t])
+            if r is not None:
+                return r
+        return None
+
+    return search(start, [])
+
+
+def default_fillable(schema):
+    """Upstream documents that the first type of a required position must be creatable
+    without recursion (otherwise create_and_fill overflows the stack); True iff the
+    default-child graph of the schema has no cycle."""
+    graph = {}
+    for name, nt in schema.nodes.items():
+        if nt.is_text or nt.is_leaf:
+            graph[name] = []
+            continue
+        ch = default_children(nt)
+        graph[name] = [] if ch is None else [t.name for t in ch]
+    state = {}
+
+    def visit(n):
+        if state.get(n) == 1:
+            return False
+        if state.get(n) == 2:
+            return True
+        state[n] = 1
+        for c in graph[n]:
+            if not visit(c):
+                return False
+        state[n] = 2
+        return True
+
+    return all(visit(n) for n in graph)
+
+
 def random_schema(rnd, tries=60, **kw):
     """Sch for a random well-founded schema, or None.  Rejections are reported through the
     returned counters dict so that callers can put them into the evidence."""
-    stats = {"rejected_by_ref": 0, "not_well_founded": 0, "library_rejected": 0}
+    stats = {"rejected_by_ref": 0, "not_well_founded": 0, "library_rejected": 0, "not_default_fillable": 0}
     for _ in range(tries):
         spec = random_spec(rnd, **kw)
         try:
@@ -226,6 +279,9 @@ def random_schema(rnd, tries=60, **kw):
         except Exception:
             # disagreement about acceptance is C06's business; here just skip
             stats["library_rejected"] += 1
+            continue
+        if not default_fillable(s):
+            stats["not_default_fillable"] += 1
             continue
         sc = Sch.__new__(Sch)
         sc.id = "random"
